@@ -330,6 +330,18 @@ def s8(ctx, rep):
     rep.put(ok, "S8", "guarded_by", "FIFOScheduler._suggest: resume suggestion exactly when a trial is promoted", f, None, "")
 
 
+def s9(ctx, rep):
+    """reports of a resumed trial at or below the level it was resumed from are flagged ignore_data (and only those): the
+    cost-aware variant drops the cost offset on such reports (shared with C14-S3)"""
+    from . import c14
+    sub = type(rep)(rep.prop)
+    c14.s3(ctx, sub)
+    for i in sub.items:
+        if "ignore_data" in i.construct:
+            i.clause = "S3"
+            rep.items.append(i)
+
+
 def run(ctx, rep, tier="quick"):
     s1(ctx, rep)
     s2(ctx, rep)
@@ -339,3 +351,4 @@ def run(ctx, rep, tier="quick"):
     s6(ctx, rep)
     s7(ctx, rep)
     s8(ctx, rep)
+    s9(ctx, rep)
